@@ -461,11 +461,11 @@ def main(argv=None):
     for part, b, path, detail in violations:
         print(f"  bucket {b}\n    {detail[:600]}")
         print(f"VIOLATION property={prop} replay={path}")
+    for e in harness_errors:
+        print("HARNESS-ERROR", e[:3000])
     if violations:
         return 1
     if harness_errors:
-        for e in harness_errors:
-            print("HARNESS-ERROR", e[:3000])
         return 2
     tot_inc = sum(m["inconclusive"] for m in merged.values())
     if evaluations and tot_inc > 0.2 * evaluations:
